@@ -1572,6 +1572,10 @@ func (stmt *UpsertIntoStmt) execAt(ctx context.Context, tx *SQLTx, params map[st
 						return nil, fmt.Errorf("%w (%s)", ErrColumnDoesNotExist, u.col)
 					}
 
+					if table.PrimaryIndex().IncludesCol(col.id) {
+						return nil, ErrPKCanNotBeUpdated
+					}
+
 					uval, err := u.val.substitute(params)
 					if err != nil {
 						return nil, err
